@@ -1,7 +1,7 @@
 /-
 C08 — vendor-defined and SPDM messages are framed with the right vendor header.
 -/
-import Mctp.Lemmas.Encode
+import Mctp.Lemmas.EncodeApi
 import Mctp.Spec.Api
 namespace Mctp
 namespace C08
@@ -12,13 +12,19 @@ theorem frame (c : Ctx) (dst : B) (e : Enc) (buf buf' fr : Bytes) (n : Nat)
     (hv : Spec.vendorFrame e = some fr)
     (h : encode c dst e buf = .ok (buf', n)) :
     Spec.message (buf'.take n) = fr := by
-  sorry
+  obtain ⟨t, hd, d, hb, -, -, hn, hp⟩ := encode_ok_take h
+  have hl : (buf'.take n).length = n := by
+    rw [hp, List.length_append, packetPre_length, hn]; simp; omega
+  unfold Spec.message
+  rw [hl, hp, sub_pre _ _ _ _ (by rw [packetPre_length, hn]; omega), packetPre_cons, ← vendorFrame_body hv hb]
+  rfl
 
 /-- any other vendor ID format is refused -/
 theorem bad_format (c : Ctx) (dst : B) (v : VendorId) (msg buf : Bytes)
     (h0 : v.format ≠ 0#8) (h1 : v.format ≠ 1#8) :
     encode c dst (.vendorDefined v msg) buf = .err () := by
-  sorry
+  unfold encode
+  simp [Enc.body, h0, h1]
 
 end C08
 end Mctp
